@@ -31,6 +31,8 @@ def given_of(ev):
 
 
 def run(ctx):
+    if getattr(ctx, "replay", None):
+        return sc.replay_only(ctx, sig_of)
     import time
     t0 = time.time()
     def lap(what):
@@ -112,14 +114,14 @@ def run(ctx):
         s = by_sid[row["sid"]]
         ctx.finding(sig_of(row, why), "%s: spec %s vs %s, calls [%s] -> %s" % (
             why, sc.spec_label(row["cd"]["spec"]), sc.srv_label(row["cd"]["srv"]), sc.ops_str(row["cd"]), sc.first_failure(row["ev"])),
-            {"scenario": {"sid": s["sid"], "conns": s["conns"]}, "class": s.get("class"), "why": why, "k": row["k"]})
+            {"scenario": s, "class": s.get("class"), "why": why, "k": row["k"]})
     nd = len(drift)
     if nd:
         ex = drift[0]
         ctx.note("mechanism model drift (diagnostic, not a verdict): %d of %d target connections match neither the as-coded nor the repaired controller model, e.g. [%s] on %s observed %s predicted %s / %s" % (
             nd, len(scns), sc.ops_str(ex["cd"]), sc.spec_label(ex["cd"]["spec"]), [o["res"] for o in ex["ev"]["ops"]], ex["pred0"], ex["pred1"]))
-    cov = {"evaluations": len(scns), "distinct_nontrivial": len({(json.dumps(s["cfg"]["sd"]), s["cfg"]["srvmax"], sc.ops_str(s["conns"][-1])) for s in scns}),
-           "rule": "every call sequence TLC enumerates over {SetSessionCache, BuildHandshakeStateWithoutSession, SetSessionTicketExtension(init|uninit|nil), SetPskExtension(real|fake|uninit|nil), BuildHandshakeState, Handshake, ApplyPreset for custom specs} up to length %d (calls after Handshake up to %d) x spec kinds x TLS 1.2/1.3 server x cache in config x session origin (previous connection / MakeClientSessionState); distinct = (spec, server, call sequence)" % (maxlen, postlen),
+    cov = {"evaluations": len(scns), "distinct_nontrivial": len({(json.dumps(s["cfg"]["sd"]), s["cfg"]["srvmax"], s["cfg"]["hrr"], s["cfg"]["cfgcache"], s["cfg"]["cached"], sc.ops_str(s["conns"][-1])) for s in scns}),
+           "rule": "every call sequence TLC enumerates over {SetSessionCache, BuildHandshakeStateWithoutSession, SetSessionTicketExtension(init|uninit|nil), SetPskExtension(real|fake|uninit|nil), BuildHandshakeState, Handshake, ApplyPreset for custom specs} up to length %d (calls after Handshake up to %d) x spec kinds x TLS 1.2/1.3 server x cache in config x session origin (previous connection / MakeClientSessionState); distinct = (spec, server, cache-in-config, cache content, call sequence incl. session origin)" % (maxlen, postlen),
            "classes": classes, "accepted": acc, "model_level_counterexamples_as_coded": len(mviol), "mechanism_drift": nd,
            "connections_replayed": n, "canaries": [w for w, _ in canaries], "samples": samples, "exhaustive": True}
     return "model_checking", cov, ["Go tls.Server of the same repository acts as the compliant server (ticket store via WrapSession/UnwrapSession)",
